@@ -62,6 +62,15 @@ KINDS = ['vip'] * 26 + ['rule'] * 24 + ['spec'] * 22 + ['netsvc'] * 14 + ['conte
 
 
 def run(ctx):
+    sampled = set()
+
+    def want_sample(kind):
+        # the runner keeps the first two samples of a shard and three per run: vary the kind with the shard
+        if sampled or KINDS[(ctx.shard * 23) % len(KINDS)] != kind:
+            return False
+        sampled.add(kind)
+        return True
+
     osproxy.install()
     try:
         for idx, rng in ctx.cases():
@@ -70,7 +79,7 @@ def run(ctx):
             if kind == 'contend':
                 desc, nontrivial = contend.run(ctx, rng, ctx.tier)
                 ctx.done(case_desc=dict(kind=kind, plan=desc), nontrivial=nontrivial,
-                         sample=dict(kind=kind, plan=desc) if idx < 40 and nontrivial else None)
+                         sample=dict(kind=kind, plan=desc) if nontrivial and want_sample(kind) else None)
             elif kind == 'netsvc':
                 case = netsvc.NetSvcCase(ctx, rng, ctx.tier)
                 try:
@@ -79,7 +88,8 @@ def run(ctx):
                 finally:
                     case.close()
                 ctx.done(case_desc=dict(kind=kind, net=case.desc(), ops=case.log), nontrivial=case.nontrivial(),
-                         sample=None)
+                         sample=(dict(kind=kind, net=case.desc(), first_steps=case.log[:30])
+                                 if case.nontrivial() and want_sample(kind) else None))
             else:
                 eng = seqdb.Engine(ctx, rng, kind, ctx.tier, ctx.case_rng(idx, 'fp'), with_fp=rng.random() < 0.5)
                 try:
@@ -87,7 +97,7 @@ def run(ctx):
                 finally:
                     eng.close()
                 ctx.done(case_desc=dict(kind=kind, db=eng.ad.desc(), ops=eng.log), nontrivial=eng.nontrivial(),
-                         sample=(dict(kind=kind, db=eng.ad.desc(), ops=eng.log[:25])
-                                 if idx < 6 and eng.nontrivial() and 'interleaved' in eng.flags else None))
+                         sample=(dict(kind=kind, db=eng.ad.desc(), first_ops=eng.log[:25])
+                                 if eng.nontrivial() and 'interleaved' in eng.flags and want_sample(kind) else None))
     finally:
         osproxy.uninstall()
